@@ -514,6 +514,13 @@ func (m *ipamMon) OnInvoke(c *cloudsim.CtrlCloud, call *cloudsim.CCall) {
 		m.createInf++
 	case "AssignPrivateIpAddresses", "AssignIpv6Addresses":
 		e, ok := snap.ENIs[call.ENI]
+		if ok && m.vswFull[e.VSW] {
+			for id, v := range c.VSWs {
+				if id != e.VSW && !m.vswFull[id] && v.Free > 0 {
+					m.violate("C17", "C17.exhausted-vswitch-chosen-again", "controller/assign", fmt.Sprintf("%s on %s, whose vSwitch %s the cloud reported exhausted earlier in this history (cache TTL 10 min), although %s has %d free addresses", call.API, call.ENI, e.VSW, id, v.Free))
+				}
+			}
+		}
 		if ok {
 			cur, lim := len(e.V4), m.cfg.V4Per
 			if call.API == "AssignIpv6Addresses" {
